@@ -249,9 +249,9 @@ func storeMixes(r *mon.Run) []mix {
 	add(mix{Cfg: Cfg{SC: 64, IC: 64, WB: 8, Flavour: "plain"}, T0: 1, Batches: []int{8, 3}, Par: 4})
 	add(mix{Cfg: Cfg{SC: 64, IC: 64, WB: 8, Flavour: "ctx"}, T0: 2, Batches: []int{8, 3}, Par: 4})
 	for _, fl := range []string{"plain", "ctx"} {
-		add(mix{Cfg: Cfg{SC: 8, IC: 8, WB: 1, Flavour: fl}, T0: 3, Batches: []int{6}})             // all flushed
-		add(mix{Cfg: Cfg{SC: 512, IC: 512, WB: 64, Flavour: fl}, T0: 3, Batches: []int{8}})        // nothing flushed
-		add(mix{Cfg: Cfg{SC: 2, IC: 2, WB: 4, Flavour: fl}, T0: 2, Batches: []int{5, 3}})          // 5 flushed + 3 pending
+		add(mix{Cfg: Cfg{SC: 8, IC: 8, WB: 1, Flavour: fl}, T0: 3, Batches: []int{6}})                   // all flushed
+		add(mix{Cfg: Cfg{SC: 512, IC: 512, WB: 64, Flavour: fl}, T0: 3, Batches: []int{8}})              // nothing flushed
+		add(mix{Cfg: Cfg{SC: 2, IC: 2, WB: 4, Flavour: fl}, T0: 2, Batches: []int{5, 3}})                // 5 flushed + 3 pending
 		add(mix{Cfg: Cfg{SC: 512, IC: 8, WB: 64, Flavour: fl}, T0: 1, Batches: []int{7}, Restart: true}) // flushed by restart, cold caches
 	}
 	if !r.Quick() {
